@@ -372,42 +372,47 @@ class Session:
         self.trace = []
         self.calls = 0
         self.stages = {}
+        self.corr = None          # first model/code disagreement; afterwards the session goes on with the real code only
+        self.model_dead = False
     def call(self, src, cap, dstnull=False, skip=False, stable=False, dict_=None, dictbuf=None, salt=0):
         """one LZ4F_decompress call on both sides.  Returns (kind, info):
         kind 'ok' -> info = (consumed, produced bytes, ret); 'corr' / 'prop' -> info = description"""
         if not dstnull:
             cap = self.cd.eff_cap(cap)
         c_cons, c_prod, c_ret, img, guard = self.cd.decompress(src, cap, dstnull, skip, stable, dictbuf if dictbuf is not None else dict_, salt)
-        m = self.md.decompress(src, cap, dstnull, skip, dict_)
         self.calls += 1
         self.trace.append((len(src), cap, c_cons, c_prod, c_ret))
-        problems = []
+        # properties of the real code first
         if guard:
-            problems.append(("prop", guard))
+            return "prop", guard
         if c_cons > len(src):
-            problems.append(("prop", "consumed %d > given %d" % (c_cons, len(src))))
+            return "prop", "consumed %d > given %d" % (c_cons, len(src))
         if c_prod > cap:
-            problems.append(("prop", "produced %d > capacity %d" % (c_prod, cap)))
+            return "prop", "produced %d > capacity %d" % (c_prod, cap)
+        if self.model_dead:
+            return "ok", (c_cons, img[:c_prod], c_ret)
+        m = self.md.decompress(src, cap, dstnull, skip, dict_)
+        problems = []
         if m["fuel"] != "ok":
-            problems.append(("corr", "model ran out of fuel (theorem C08_no_fuel_out contradicted)"))
+            problems.append("model ran out of fuel (theorem C08_no_fuel_out contradicted)")
         if m["oob"] != "ok":
-            problems.append(("corr", "model staging buffer overflow flag set (theorem C08_staging_in_bounds contradicted)"))
+            problems.append("model staging buffer overflow flag set (theorem C08_staging_in_bounds contradicted)")
         if (c_cons, c_prod, c_ret) != (m["consumed"], m["produced"], m["ret"]):
-            problems.append(("corr", "call %d (src %d bytes, cap %d): code (consumed=%d, produced=%d, ret=%d) model (consumed=%d, produced=%d, ret=%d) model stage %s" % (
-                self.calls, len(src), cap, c_cons, c_prod, c_ret, m["consumed"], m["produced"], m["ret"], m["stage"])))
+            problems.append("call %d (src %d bytes, cap %d): code (consumed=%d, produced=%d, ret=%d) model (consumed=%d, produced=%d, ret=%d) model stage %s" % (
+                self.calls, len(src), cap, c_cons, c_prod, c_ret, m["consumed"], m["produced"], m["ret"], m["stage"]))
         elif md5(img[:m["outlen"]]) != m["outmd5"]:
-            problems.append(("corr", "call %d: output bytes differ (%d bytes)" % (self.calls, m["outlen"])))
+            problems.append("call %d: output bytes differ (%d bytes)" % (self.calls, m["outlen"]))
         elif self.lib.peek and c_ret >= 0 and m["state"] is not None:
             cs = self.lib.dstate(self.cd.ctx)
             self.stages[m["stage"]] = self.stages.get(m["stage"], 0) + 1
             if cs != m["state"]:
-                problems.append(("corr", "call %d: context fields (stage,remaining,tmpInSize,tmpInTarget,maxBlockSize,maxBufferSize,skip) code %s model %s" % (self.calls, cs, m["state"])))
+                problems.append("call %d: context fields (stage,remaining,tmpInSize,tmpInTarget,maxBlockSize,maxBufferSize,skip) code %s model %s" % (self.calls, cs, m["state"]))
         if problems:
-            if problems[0][0] == "corr":
-                cls = self.classify_blockdec()
-                if cls:
-                    return "blockdec", cls
-            return problems[0][0], problems[0][1]
+            cls = self.classify_blockdec()
+            if cls:
+                return "blockdec", cls
+            self.corr = problems[0]
+            self.model_dead = True
         return "ok", (c_cons, img[:c_prod], c_ret)
     def classify_blockdec(self):
         """Did the model (block decoder = spec_decode) and liblz4's block decoder disagree on a block decoded
@@ -437,7 +442,13 @@ class Session:
 
 def drive(sess, rng, data, chunking="whole", capmode="large", skip=False, stable=False, dict_=None, bs=65536, hlen=7,
           multi=False, max_calls=8000, dstnull_prob=0.0):
-    """Feed [data] to the session.  Returns dict(verdict=complete|error|incomplete|corr|prop|noprogress, ...)."""
+    """Feed [data] to the session.  Returns dict(verdict=complete|error|incomplete|prop|noprogress|blockdec|toolong, ...,
+    corr = first model/code disagreement or None)."""
+    r = _drive(sess, rng, data, chunking, capmode, skip, stable, dict_, bs, hlen, multi, max_calls, dstnull_prob)
+    r["corr"] = sess.corr
+    return r
+
+def _drive(sess, rng, data, chunking, capmode, skip, stable, dict_, bs, hlen, multi, max_calls, dstnull_prob):
     nxt = chunk_plan(rng, chunking, len(data), hlen)
     capf = cap_plan(rng, capmode, bs)
     pos = 0; out = bytearray(); hint = 1
